@@ -125,6 +125,7 @@ def check(program: Program, run: Run) -> None:
         "graphs depends on eq/hash coherence, discharged by C17 and re-evaluated here. Behaviour on generated call sequences is not computed.")
     run.rule("R1 guard table: raise of the documented exception, reading the guarded attributes, dominating the protected write")
     run.rule("R2 join availability = FROM list + update table + CTEs (do_join) | items of existing joins | item being joined; criterion tables from all fields; JoinException iff difference non-empty")
+    run.rule("R4 no attribute is read from a value whose declared class has a value-manufacturing __getattr__ unless that class defines the attribute (else a valid operand of another subclass yields a Field and a TypeError instead of SQL or a library exception)")
     run.rule("R3 set arithmetic exactness inherits C17 (hash/eq coherence of Table, Field collection)")
     n_ok = 0
     for qual, attrs, exc, protects, opt in G:
@@ -189,13 +190,22 @@ def check(program: Program, run: Run) -> None:
 
         def expand(e):
             return defs.get(e.id, e) if isinstance(e, ast.Name) else e
-        srcs = self_reads(expand(base), dj.params[0])
+        def reads_through_helpers(e):
+            """attributes of self read by the expression, following argument-less helper methods of the builder one level"""
+            out = self_reads(e, dj.params[0])
+            for n in ast.walk(e):
+                if isinstance(n, ast.Call) and isinstance(n.func, ast.Attribute) and isinstance(n.func.value, ast.Name) and n.func.value.id == dj.params[0]:
+                    hf = qb.resolve(n.func.attr)
+                    if hf is not None and hf.params:
+                        out |= self_reads(hf.node, hf.params[0])
+            return out
+        srcs = reads_through_helpers(expand(base))
         for need in ("_from", "_update_table", "_with"):
             ok = need in srcs
             run.ob("C14/R2 source reaches the availability set", f"do_join:{need}", ok, where=dj.loc())
             if not ok:
                 run.finding(f"C14/availability-missing:QueryBuilder.do_join:{need}", f"do_join does not pass {need} to join.validate: tables available through it are reported as missing (valid joins rejected)", where=dj.loc(), rule="R2")
-        ok = second is not None and "_joins" in self_reads(expand(second), dj.params[0])
+        ok = second is not None and "_joins" in reads_through_helpers(expand(second))
         run.ob("C14/R2 source reaches the availability set", "do_join:_joins", ok, where=dj.loc())
         if not ok:
             run.finding("C14/availability-missing:QueryBuilder.do_join:_joins", "do_join does not pass the existing joins to join.validate", where=dj.loc(), rule="R2")
@@ -248,7 +258,22 @@ def check(program: Program, run: Run) -> None:
         fcalls = [n for n in ast.walk(crit) if isinstance(n, ast.Call) and isinstance(n.func, ast.Attribute) and n.func.attr == "fields_"
                   and "criterion" in self_reads(n.func.value, jv.params[0])]
         takes_table = any(isinstance(n, ast.Attribute) and n.attr == "table" for n in ast.walk(crit))
-        filtered = any(isinstance(n, ast.comprehension) and n.ifs for n in ast.walk(crit))
+        def _none_filter(t):
+            # `<x>.table is not None`
+            return isinstance(t, ast.Compare) and len(t.ops) == 1 and isinstance(t.ops[0], ast.IsNot) and isinstance(t.comparators[0], ast.Constant) \
+                and t.comparators[0].value is None and isinstance(t.left, ast.Attribute) and t.left.attr == "table"
+        comp_ifs = [t for n in ast.walk(crit) if isinstance(n, ast.comprehension) for t in n.ifs]
+        filtered = any(not _none_filter(t) for t in comp_ifs)
+        # a field without a table refers to no source, so it can never refer to a missing one: None must not survive into
+        # the difference (relying on `[self._update_table]` happening to be None admits it for SELECTs only)
+        drops_none = any(_none_filter(t) for t in comp_ifs) or any(
+            isinstance(n, ast.Call) and isinstance(n.func, ast.Attribute) and n.func.attr == "discard" and n.args and isinstance(n.args[0], ast.Constant) and n.args[0].value is None
+            for n in ast.walk(jv.node)) or any(isinstance(n, ast.BinOp) and isinstance(n.op, ast.Sub) and isinstance(n.right, ast.Set) and any(isinstance(x, ast.Constant) and x.value is None for x in n.right.elts) for n in ast.walk(test))
+        run.ob("C14/R2 table-less fields of the criterion are never reported missing", "JoinOn.validate", drops_none, where=jv.loc(raising[0]), detail=ast.unparse(crit)[:120])
+        if not drops_none:
+            run.finding("C14/tableless-field-rejected:JoinOn.validate",
+                        "JoinOn.validate leaves None (the source of a field built without a table) in the set it subtracts the available tables from: such a criterion is only accepted while "
+                        "do_join's `[self._update_table]` happens to be None, i.e. a valid UPDATE ... JOIN ... ON <unqualified column> raises JoinException(Found [None])", where=jv.loc(raising[0]), rule="R2")
         find_field = any(isinstance(n, ast.Call) and isinstance(n.func, ast.Attribute) and n.func.attr == "find_" and n.args
                          and isinstance(n.args[0], ast.Name) and n.args[0].id == "Field" for n in ast.walk(crit))
         narrowed = any(isinstance(n, ast.Attribute) and n.attr == "tables_" for n in ast.walk(crit)) or any(
@@ -264,6 +289,9 @@ def check(program: Program, run: Run) -> None:
                         f"(left operand of the difference is `{ast.unparse(crit)[:100]}`, not the .table of every criterion.fields_() entry): "
                         "fields of a subquery or CTE reference that is not in scope are no longer reported", where=jv.loc(raising[0]), rule="R2")
 
+    # ---- R4
+    _manufactured_reads(program, run)
+
     # ---- R3: inherited obligations from C17
     from . import c17
     sub = Run("C17", run.tier)
@@ -276,3 +304,166 @@ def check(program: Program, run: Run) -> None:
     for o in sub.obligations:
         if o.rule.startswith(("C17/R1", "C17/R2 objects", "C17/R3")):
             run.ob("C14/R3 " + o.rule[4:], o.subject, o.ok, o.detail, o.where)
+
+
+def _manufactured_reads(program: Program, run: Run) -> None:
+    """R4: Selectable.__getattr__ (and Schema/Database) turn any unknown attribute into a new object.  Reading an
+    attribute that only *some* subclasses define from a value declared as the hook-bearing class therefore never fails
+    where it should: for another subclass the read yields a Field, and the next operation (len(), a call) raises a
+    TypeError -- a valid construction rejected with a non-library exception, or an invalid one not rejected properly.
+    Declared classes come from parameter annotations and flow through `self.<attr>` stores (direct, element, tuple
+    position) to loop variables."""
+    byname = {}
+    for c in program.all_classes():
+        byname.setdefault(c.name, c)
+    hooks = [c for c in program.all_classes() if "__getattr__" in c.methods and any(
+        isinstance(n, ast.Return) and n.value is not None and not (isinstance(n.value, ast.Constant) and n.value.value is None)
+        for n in ast.walk(c.methods["__getattr__"].node))]
+    if not hooks:
+        raise AnalysisError("anchor vanished: no value-manufacturing __getattr__ found")
+
+    def ann_classes(a, K):
+        out = set()
+        if a is None:
+            return out
+        if isinstance(a, ast.Constant) and isinstance(a.value, str):
+            try:
+                a = ast.parse(a.value, mode="eval").body
+            except SyntaxError:
+                return out
+        for n in ast.walk(a):
+            nm = n.id if isinstance(n, ast.Name) else (n.attr if isinstance(n, ast.Attribute) else (n.value if isinstance(n, ast.Constant) and isinstance(n.value, str) else None))
+            if nm == "Self":
+                out.add(K)
+            elif nm in byname:
+                out.add(byname[nm])
+        return out
+
+    def defines(D, name):
+        if D.resolve(name) is not None:
+            return True
+        for k in D.mro:
+            if name in k.class_attrs or name in getattr(k, "class_annos", {}):
+                return True
+        return name in program.attr_kinds(D)
+
+    def direct(e, ptypes, out, pos="direct"):
+        if isinstance(e, ast.Name) and e.id in ptypes:
+            out.setdefault(pos, set()).update(ptypes[e.id])
+        elif isinstance(e, (ast.List, ast.Set)):
+            for x in e.elts:
+                direct(x.value if isinstance(x, ast.Starred) else x, ptypes, out, "elem" if pos == "direct" else pos)
+        elif isinstance(e, ast.Tuple):
+            for i, x in enumerate(e.elts):
+                direct(x, ptypes, out, i if pos in ("direct", "elem") else pos)
+        elif isinstance(e, ast.BinOp) and isinstance(e.op, ast.Add):
+            direct(e.left, ptypes, out, pos)
+            direct(e.right, ptypes, out, pos)
+        elif isinstance(e, ast.IfExp):
+            direct(e.body, ptypes, out, pos)
+            direct(e.orelse, ptypes, out, pos)
+        elif isinstance(e, ast.Call) and isinstance(e.func, ast.Name) and e.func.id in ("list", "tuple", "copy") and e.args:
+            direct(e.args[0], ptypes, out, pos)
+
+    nreads = 0
+    seen = set()
+    for K in program.all_classes():
+        T: dict = {}
+        for f in K.methods.values():
+            if not f.params or f.is_static:
+                continue
+            selfn = f.params[0]
+            a_ = f.node.args
+            ptypes = {a.arg: ann_classes(a.annotation, K) for a in a_.posonlyargs + a_.args + a_.kwonlyargs}
+            for n in ast.walk(f.node):
+                if isinstance(n, (ast.Assign, ast.AnnAssign)) and n.value is not None:
+                    for t in (n.targets if isinstance(n, ast.Assign) else [n.target]):
+                        if isinstance(t, ast.Attribute) and isinstance(t.value, ast.Name) and t.value.id == selfn:
+                            direct(n.value, ptypes, T.setdefault(t.attr, {}))
+                if isinstance(n, ast.Call) and isinstance(n.func, ast.Attribute) and n.func.attr in ("append", "add") and n.args \
+                        and isinstance(n.func.value, ast.Attribute) and isinstance(n.func.value.value, ast.Name) and n.func.value.value.id == selfn:
+                    direct(n.args[0], ptypes, T.setdefault(n.func.value.attr, {}), "elem")
+        for f in K.methods.values():
+            if not f.params or f.is_static:
+                continue
+            selfn = f.params[0]
+            a_ = f.node.args
+            env = {}
+            for a in a_.posonlyargs + a_.args + a_.kwonlyargs:
+                cs = ann_classes(a.annotation, K)
+                if cs and a.arg != selfn:
+                    env[a.arg] = set(cs)
+
+            def from_attr(e):
+                if isinstance(e, ast.Attribute) and isinstance(e.value, ast.Name) and e.value.id == selfn:
+                    return e.attr
+                return None
+            for n in ast.walk(f.node):
+                it = tg = None
+                if isinstance(n, ast.For):
+                    it, tg = n.iter, n.target
+                elif isinstance(n, ast.comprehension):
+                    it, tg = n.iter, n.target
+                if it is None:
+                    continue
+                a = from_attr(it)
+                if a and a in T:
+                    if isinstance(tg, ast.Tuple):
+                        for i, x in enumerate(tg.elts):
+                            if isinstance(x, ast.Name) and T[a].get(i):
+                                env.setdefault(x.id, set()).update(T[a][i])
+                    elif isinstance(tg, ast.Name) and T[a].get("elem"):
+                        env.setdefault(tg.id, set()).update(T[a]["elem"])
+            parents = {}
+            for n in ast.walk(f.node):
+                for ch in ast.iter_child_nodes(n):
+                    parents[ch] = n
+            for n in ast.walk(f.node):
+                if not (isinstance(n, ast.Attribute) and isinstance(n.ctx, ast.Load)) or n.attr.startswith("__"):
+                    continue
+                var = Ds = None
+                if isinstance(n.value, ast.Name) and n.value.id in env:
+                    var, Ds = n.value.id, env[n.value.id]
+                else:
+                    a = from_attr(n.value)
+                    if a and a in T:
+                        var, Ds = f"self.{a}", T[a].get("direct")
+                if not Ds:
+                    continue
+                Ds = {D for D in Ds if any(D is m or D.is_subclass_of(m) for m in hooks)}
+                if not Ds:
+                    continue
+                nreads += 1
+                narrowed = False
+                x = n
+                while x in parents and not narrowed:
+                    par = parents[x]
+                    tests = []
+                    if isinstance(par, (ast.If, ast.IfExp, ast.While)) and x is not par.test:
+                        tests.append(par.test)
+                    if isinstance(par, ast.BoolOp) and isinstance(par.op, ast.And):
+                        tests += [v for v in par.values if v is not x]
+                    if isinstance(par, (ast.ListComp, ast.GeneratorExp, ast.SetComp, ast.DictComp)):
+                        for g in par.generators:
+                            tests += g.ifs
+                    for t in tests:
+                        for c in ast.walk(t):
+                            if isinstance(c, ast.Call) and isinstance(c.func, ast.Name) and c.func.id == "isinstance" and c.args and ast.unparse(c.args[0]) == ast.unparse(n.value):
+                                narrowed = True
+                    x = par
+                for D in sorted(Ds, key=lambda d: d.qualname):
+                    ok = narrowed or defines(D, n.attr)
+                    key = (f.qualname, var, n.attr, D.qualname)
+                    if key in seen:
+                        continue
+                    seen.add(key)
+                    run.ob("C14/R4 attribute read resolves on the declared class of the value", f"{f.qualname}:{var}.{n.attr}@{D.qualname}", ok, where=f.loc(n))
+                    if not ok:
+                        lacking = sorted(s_.qualname for s_ in [D] + D.all_subclasses() if not defines(s_, n.attr))[:5]
+                        run.finding(f"C14/manufactured-attr:{f.qualname}:{var}.{n.attr}",
+                                    f"{f.qualname} reads `{ast.unparse(n)}` from a value declared as {D.qualname}, whose __getattr__ manufactures a Field for unknown names; "
+                                    f"{', '.join(lacking)} do not define `{n.attr}`, so such an operand yields a Field here and the following operation fails with a TypeError instead of producing SQL or a library exception",
+                                    where=f.loc(n), rule="R4", excerpt=f.module.excerpt(n.lineno, 1))
+    run.analysed["hooked_class_attribute_reads"] = nreads
+    if nreads < 15:
+        raise AnalysisError(f"instance count below floor: attribute reads on hook-bearing declared classes {nreads}")
